@@ -7,7 +7,6 @@ import (
 	"bytes"
 	"encoding/json"
 	"fmt"
-	"math/big"
 	"sort"
 
 	"github.com/nspcc-dev/neo-go/pkg/config"
@@ -15,6 +14,9 @@ import (
 	"github.com/nspcc-dev/neo-go/pkg/core/native/nativenames"
 	"github.com/nspcc-dev/neo-go/pkg/core/state"
 	"github.com/nspcc-dev/neo-go/pkg/core/transaction"
+	"github.com/nspcc-dev/neo-go/pkg/core/native/noderoles"
+	"github.com/nspcc-dev/neo-go/pkg/core/storage"
+	"github.com/nspcc-dev/neo-go/pkg/crypto/keys"
 	"github.com/nspcc-dev/neo-go/pkg/neotest"
 	"github.com/nspcc-dev/neo-go/pkg/neotest/chain"
 	"github.com/nspcc-dev/neo-go/pkg/encoding/bigint"
@@ -40,6 +42,8 @@ type env struct {
 	polID  int32
 	mgmtID int32
 	nonce  uint32
+	store  *storage.MemoryStore
+	single neotest.SingleSigner // the committee member's own account (the registered candidate)
 }
 
 // nonces are per-chain counters (neotest.Nonce is a process-wide counter: fine too, but this keeps
@@ -48,12 +52,29 @@ func (v *env) nextNonce() uint32 { v.nonce++; return v.nonce + 1000 }
 
 var interp = buildInterp()
 
+// fixed node keys for RoleManagement.designateAsRole
+var nodeKeyA, nodeKeyB = mustKey("02b3622bf4017bdfe317c58aed5f4c753f206b7db896046fa7d774bbc4bf7f8dc2"), mustKey("02103a7f7dd016558597f7960d27c516a4394fd968b9e65155eb4b013e4040406e")
+
+func mustKey(h string) []byte {
+	k, err := keys.NewPublicKeyFromString(h)
+	if err != nil {
+		panic(err)
+	}
+	return k.Bytes()
+}
+
 func newEnv() *env {
 	config.Version = "verif"
 	tb := &shimTB{}
-	bc, comm := chain.NewSingleWithOptions(tb, &chain.Options{Logger: zap.NewNop()})
+	store := storage.NewMemoryStore()
+	bc, comm := chain.NewSingleWithOptions(tb, &chain.Options{Logger: zap.NewNop(), Store: store})
 	e := neotest.NewExecutor(tb, bc, comm, comm)
-	v := &env{tb: tb, bc: bc, e: e, comm: comm}
+	v := &env{tb: tb, bc: bc, e: e, comm: comm, store: store}
+	v.single = comm.(neotest.MultiSigner).Single(0)
+	v.w.candKey = v.single.Account().PublicKey().Bytes()
+	v.w.roleMgmt = e.NativeHash(tb, nativenames.Designation)
+	v.w.notary = e.NativeHash(tb, nativenames.Notary)
+	v.w.nodeSets = map[int][]any{1: {nodeKeyA}, 2: {nodeKeyA, nodeKeyB}}
 	v.w.gas = e.NativeHash(tb, nativenames.Gas)
 	v.w.neo = e.NativeHash(tb, nativenames.Neo)
 	v.w.policy = e.NativeHash(tb, nativenames.Policy)
@@ -93,6 +114,11 @@ func newEnv() *env {
 		v.w.hashes[i] = h
 		rawM, err := json.Marshal(m)
 		if err != nil {
+			panic(err)
+		}
+		m2 := *m
+		m2.Extra = json.RawMessage(`"updated"`)
+		if v.w.manifests[i], err = json.Marshal(&m2); err != nil {
 			panic(err)
 		}
 		neb, err := ne.Bytes()
@@ -140,62 +166,150 @@ func (v *env) newTx(script []byte, sysFee int64, withCommittee bool) *transactio
 
 type kv struct{ c, k, v int }
 
+type triple struct{ o, k, v int }
+
 type snapshot struct {
-	store   []kv             // contract storage: (contract index, key, value), sorted
-	gas     map[int]*big.Int // GAS balance per contract index; -1 = sender
-	neo     map[int]*big.Int
-	feePB   int64       // Policy.getFeePerByte via the native cache
-	blocked map[int]bool // plain accounts in Policy's blocked list
-	aux     map[int]int  // deployed auxiliary contracts: index -> contract ID
-	nextID  int
-	odd     []string // unexpected storage entries; native cache values that differ from storage
+	tr  []triple // the ledger state in the model's vocabulary (owner, key, value), sorted
+	odd []string // unexpected storage entries; native cache values that differ from storage
 }
 
-func (v *env) snap() *snapshot {
-	s := &snapshot{gas: map[int]*big.Int{}, neo: map[int]*big.Int{}}
+var neoHolders = []int{0, 1, 2, 3, 6, 7}
+
+func (v *env) acc(a int) util.Uint160 {
+	if a < numContracts {
+		return v.w.hashes[a]
+	}
+	return v.w.plain[a]
+}
+
+// accIndex maps a script hash (BE bytes) to the model's account number (-1: unknown).
+func (v *env) accIndex(b []byte) int {
+	for _, a := range []int{0, 1, 2, 3, 6, 7, 8} {
+		if bytes.Equal(b, v.acc(a).BytesBE()) {
+			return a
+		}
+	}
+	return -1
+}
+
+func (v *env) testInvoke(h util.Uint160, method string, args ...any) stackitem.Item {
+	stk, err := v.e.CommitteeInvoker(h).TestInvoke(v.tb, method, args...)
+	if err != nil || stk.Len() != 1 {
+		panic(fmt.Sprintf("test invocation of %s failed: %v", method, err))
+	}
+	return stk.Pop().Item()
+}
+
+// snap observes the ledger state. post: the state is that of a just persisted block (NEO
+// BalanceHeight == height means "touched in this block"); otherwise it is the pre-state of the
+// next block and carries the GAS reward every NEO holder would get on its first touch there.
+func (v *env) snap(post bool) *snapshot {
+	s := &snapshot{}
+	add := func(o, k, val int) { s.tr = append(s.tr, triple{o, k, val}) }
+	height := v.bc.BlockHeight()
 	for i := 0; i < numContracts; i++ {
 		v.bc.SeekStorage(v.ids[i], nil, func(k, val []byte) bool {
 			if len(k) == 1 && len(val) == 1 {
-				s.store = append(s.store, kv{i, int(k[0]), int(val[0])})
+				add(i, int(k[0]), int(val[0]))
 			} else {
 				s.odd = append(s.odd, fmt.Sprintf("%d:%x=%x", i, k, val))
 			}
 			return true
 		})
-		s.gas[i] = v.bc.GetUtilityTokenBalance(v.w.hashes[i], util.Uint160{})
-		nb, _ := v.bc.GetGoverningTokenBalance(v.w.hashes[i])
-		s.neo[i] = nb
 	}
-	s.gas[senderAcc] = v.bc.GetUtilityTokenBalance(v.sender.ScriptHash(), util.Uint160{})
-	for _, a := range plainAccounts {
-		s.gas[a] = v.bc.GetUtilityTokenBalance(v.w.plain[a], util.Uint160{})
-	}
-	sort.Slice(s.store, func(a, b int) bool {
-		if s.store[a].c != s.store[b].c {
-			return s.store[a].c < s.store[b].c
+	for _, a := range []int{0, 1, 2, 3, 6, 7, 8} {
+		if g := v.bc.GetUtilityTokenBalance(v.acc(a), util.Uint160{}); g.Sign() != 0 {
+			add(gasTab, a, int(g.Int64()))
 		}
-		return s.store[a].k < s.store[b].k
-	})
-	s.feePB = v.bc.FeePerByte()
-	if st := v.bc.GetStorageItem(v.polID, []byte{10}); st == nil || bigint.FromBytes(st).Int64() != s.feePB {
-		s.odd = append(s.odd, fmt.Sprintf("feePerByte cache=%d storage=%x", s.feePB, []byte(st)))
 	}
-	s.blocked = map[int]bool{}
-	inv := v.e.CommitteeInvoker(v.w.policy)
-	for _, a := range plainAccounts {
-		h := v.w.plain[a]
+	if g := v.bc.GetUtilityTokenBalance(v.w.notary, util.Uint160{}); g.Sign() != 0 {
+		add(gasTab, notaryAcc, int(g.Int64()))
+	}
+	add(gasTab, senderAcc, int(v.bc.GetUtilityTokenBalance(v.sender.ScriptHash(), util.Uint160{}).Int64()))
+	// NEO accounts
+	for _, a := range neoHolders {
+		h := v.acc(a)
+		bal, hgt := v.bc.GetGoverningTokenBalance(h)
+		si := v.bc.GetStorageItem(v.neoID, append([]byte{20}, h.BytesBE()...))
+		if (si != nil) != (bal.Sign() != 0) {
+			s.odd = append(s.odd, fmt.Sprintf("neo[%d] record=%v balance=%s", a, si != nil, bal))
+		}
+		if si == nil {
+			continue
+		}
+		add(neoTab, a, int(bal.Int64()))
+		nb, err := state.NEOBalanceFromBytes(si)
+		if err != nil {
+			panic(err)
+		}
+		if nb.VoteTo != nil {
+			add(voteTab, a, 1)
+		}
+		if post {
+			if hgt == height {
+				add(neoHTab, a, 1)
+			}
+		} else if r, err := v.bc.CalculateClaimable(h, height+1); err == nil && r.Sign() != 0 {
+			add(rewardTab, a, int(r.Int64()))
+		}
+	}
+	if enr, err := v.bc.GetEnrollments(); err == nil {
+		for _, e := range enr {
+			if bytes.Equal(e.Key.Bytes(), v.w.candKey) && e.Votes.Sign() != 0 {
+				add(candTab, 0, int(e.Votes.Int64()))
+			}
+		}
+	}
+	if si := v.bc.GetStorageItem(v.neoID, []byte{1}); si != nil {
+		if n := bigint.FromBytes(si); n.Sign() != 0 {
+			add(votersTab, 0, int(n.Int64()))
+		}
+	}
+	// Notary deposits
+	for i := 0; i < numContracts; i++ {
+		if d := v.bc.GetUtilityTokenBalance(v.w.notary, v.w.hashes[i]); d.Sign() != 0 {
+			add(notaryTab, i, int(d.Int64()))
+		}
+	}
+	// Policy: fee per byte (cache vs storage), blocked list (cache vs storage), whitelisted fees
+	feePB := v.bc.FeePerByte()
+	if st := v.bc.GetStorageItem(v.polID, []byte{10}); st == nil || bigint.FromBytes(st).Int64() != feePB {
+		s.odd = append(s.odd, fmt.Sprintf("feePerByte cache=%d storage=%x", feePB, []byte(st)))
+	}
+	add(policyTab, 0, int(feePB))
+	for _, a := range []int{0, 1, 2, 3, 6, 7, 8} {
+		h := v.acc(a)
 		inStorage := v.bc.GetStorageItem(v.polID, append([]byte{15}, h.BytesBE()...)) != nil
-		stk, err := inv.TestInvoke(v.tb, "isBlocked", h)
-		if err != nil || stk.Len() != 1 {
-			panic(fmt.Sprintf("isBlocked test invocation failed: %v", err))
-		}
-		inCache := stk.Pop().Bool()
+		inCache := v.testInvoke(v.w.policy, "isBlocked", h).Value().(bool)
 		if inCache != inStorage {
 			s.odd = append(s.odd, fmt.Sprintf("blocked[%d] cache=%v storage=%v", a, inCache, inStorage))
 		}
-		s.blocked[a] = inCache
+		if inCache {
+			add(blockTab, a, 1)
+		}
 	}
-	s.aux = map[int]int{}
+	v.bc.SeekStorage(v.polID, []byte{16}, func(k, val []byte) bool {
+		it, err := stackitem.Deserialize(val)
+		arr, ok := it.Value().([]stackitem.Item)
+		if err != nil || !ok || len(arr) != 4 || len(k) != 24 {
+			s.odd = append(s.odd, fmt.Sprintf("whitelist entry %x", k))
+			return true
+		}
+		c := -1
+		for i, h := range v.w.hashes {
+			if bytes.Equal(k[:20], h.BytesBE()) {
+				c = i
+			}
+		}
+		fee, _ := arr[3].TryInteger()
+		if c < 0 {
+			s.odd = append(s.odd, fmt.Sprintf("whitelist entry for unknown contract %x", k))
+		} else {
+			add(wlTab, c, int(fee.Int64()))
+		}
+		return true
+	})
+	// ContractManagement: auxiliary contracts, update counters, destroyed contracts, next ID
 	for d := 0; d < numAux; d++ {
 		cs := v.bc.GetContractState(v.w.auxHash[d]) // through the Management cache
 		inStorage := v.bc.GetStorageItem(v.mgmtID, append([]byte{8}, v.w.auxHash[d].BytesBE()...)) != nil
@@ -203,12 +317,39 @@ func (v *env) snap() *snapshot {
 			s.odd = append(s.odd, fmt.Sprintf("aux[%d] cache=%v storage=%v", d, cs != nil, inStorage))
 		}
 		if cs != nil {
-			s.aux[d] = int(cs.ID)
+			add(mgmtTab, d, int(cs.ID))
+		}
+	}
+	for i := 0; i < numContracts; i++ {
+		cs := v.bc.GetContractState(v.w.hashes[i])
+		inStorage := v.bc.GetStorageItem(v.mgmtID, append([]byte{8}, v.w.hashes[i].BytesBE()...)) != nil
+		if (cs != nil) != inStorage {
+			s.odd = append(s.odd, fmt.Sprintf("contract[%d] cache=%v storage=%v", i, cs != nil, inStorage))
+		}
+		if cs == nil {
+			add(mgmtTab, 100+i, 1)
+		} else if cs.UpdateCounter != 0 {
+			add(mgmtTab, 200+i, int(cs.UpdateCounter))
 		}
 	}
 	if st := v.bc.GetStorageItem(v.mgmtID, []byte{15}); st != nil {
-		s.nextID = int(bigint.FromBytes(st).Int64())
+		add(mgmtTab, 99, int(bigint.FromBytes(st).Int64()))
 	}
+	// RoleManagement: what was designated in the block just persisted
+	if post {
+		for _, r := range roles {
+			ks, hgt, err := v.bc.GetDesignatedByRole(noderoles.Role(r))
+			if err == nil && hgt == height+1 && len(ks) > 0 {
+				add(roleTab, r, len(ks))
+			}
+		}
+	}
+	sort.Slice(s.tr, func(a, b int) bool {
+		if s.tr[a].o != s.tr[b].o {
+			return s.tr[a].o < s.tr[b].o
+		}
+		return s.tr[a].k < s.tr[b].k
+	})
 	return s
 }
 
@@ -254,6 +395,22 @@ func (v *env) eventsOf(aer *state.AppExecResult, entry util.Uint160) ([]event, [
 				t = 101
 			}
 			res = append(res, event{t, int(bi.Int64())})
+		case n.Name == "Vote" && len(arr) == 4 && n.ScriptHash.Equals(v.w.neo):
+			b, _ := arr[0].TryBytes()
+			res = append(res, event{voteTab, v.accIndex(b)})
+		case n.Name == "Designation" && len(arr) >= 2 && n.ScriptHash.Equals(v.w.roleMgmt):
+			bi, _ := arr[0].TryInteger()
+			res = append(res, event{roleTab, int(bi.Int64())})
+		case n.Name == "WhitelistFeeChanged" && len(arr) == 4 && n.ScriptHash.Equals(v.w.policy):
+			b, _ := arr[0].TryBytes()
+			res = append(res, event{wlTab, v.accIndex(b)})
+		case (n.Name == "Update" || n.Name == "Destroy") && len(arr) == 1 && n.ScriptHash.Equals(v.w.mgmt):
+			b, _ := arr[0].TryBytes()
+			off := 200
+			if n.Name == "Destroy" {
+				off = 100
+			}
+			res = append(res, event{mgmtTab, off + v.accIndex(b)})
 		case n.Name == "Deploy" && len(arr) == 1 && n.ScriptHash.Equals(v.w.mgmt):
 			b, _ := arr[0].TryBytes()
 			d := -1
